@@ -55,6 +55,9 @@ func (p *c08Parser) peek() string {
 	return p.toks[p.pos]
 }
 
+// c08Multi: struct types carry a `json` and a `form` tag on every field (op `um`)
+var c08Multi bool
+
 var c08Prims = map[string]reflect.Type{
 	"bool": reflect.TypeOf(false), "int": reflect.TypeOf(int(0)), "i8": reflect.TypeOf(int8(0)),
 	"i16": reflect.TypeOf(int16(0)), "i32": reflect.TypeOf(int32(0)), "i64": reflect.TypeOf(int64(0)),
@@ -82,6 +85,15 @@ func (p *c08Parser) parseType(key string) reflect.Type {
 			switch {
 			case tag == "x":
 				st = reflect.StructTag(`zzother:"zz"`)
+			case strings.HasPrefix(tag, "t:") && c08Multi:
+				// `um`: the same struct type is read by two unmarshalers: the tag value under `json`, the bare key under `form`
+				if len(tag) > 2 {
+					kp := tag[2:]
+					if i := strings.IndexByte(kp, ','); i >= 0 {
+						kp = kp[:i]
+					}
+					st = reflect.StructTag("json:" + strconv.Quote(tag[2:]) + " form:" + strconv.Quote(kp))
+				}
 			case strings.HasPrefix(tag, "t:"):
 				if len(tag) > 2 {
 					st = reflect.StructTag(key + ":" + strconv.Quote(tag[2:]))
@@ -626,9 +638,14 @@ func c08Exec(op []string) string {
 	if len(op) > 0 && op[0] == "v" {
 		return c08ExecValuer(op)
 	}
-	if len(op) < 6 || (op[0] != "u" && op[0] != "uy" && op[0] != "ut") {
+	if len(op) < 6 || (op[0] != "u" && op[0] != "uy" && op[0] != "ut" && op[0] != "um") {
 		return "bad-op"
 	}
+	// um key=<json|form>: one struct type with `json:"<tag value>" form:"<key>"` on every field, read by the unmarshaler
+	// of the named key (plain options).  Package-level state that is keyed by the type (structRequiredCache) is shared
+	// by the two unmarshalers: sequences of `um` lines on one type exercise it.
+	c08Multi = op[0] == "um"
+	defer func() { c08Multi = false }()
 	cfg := verifh.ParseCfg(strings.Join(op[1:4], " "))
 	key := cfg.Str("key", "json")
 	p := &c08Parser{toks: op[4:]}
@@ -697,8 +714,17 @@ func c08Exec(op []string) string {
 	if p.pos != len(p.toks) {
 		return "bad-op"
 	}
+	if op[0] == "um" && key != "json" && key != "form" {
+		return "bad-op"
+	}
 	if key == "json" && cfg.Int("fs", 0) == 0 && cfg.Int("fa", 0) == 0 {
 		err = UnmarshalJsonBytes([]byte(sb.String()), target.Interface())
+	} else if op[0] == "um" {
+		var tree any
+		if e := jsonx.UnmarshalFromString(sb.String(), &tree); e != nil {
+			return "bad-op"
+		}
+		err = NewUnmarshaler(key).Unmarshal(tree, target.Interface())
 	} else {
 		var tree any
 		if e := jsonx.UnmarshalFromString(sb.String(), &tree); e != nil {
@@ -1364,6 +1390,29 @@ func c08Gen(r *verifh.Rng) []verifh.Section {
 					}
 				}
 				ops = append(ops, head+" "+cfg+" T"+tb.String()+" I "+in)
+			}
+		}
+		if i == 0 {
+			// open defect (Props.structRequiredCache_witness): `form` first caches "the nested struct needs a value" for the
+			// type, the `json` unmarshaler then refuses {} although every field is optional under `json`
+			ops = append(ops,
+				"um key=form fs=0 fa=0 T { In { A int t:a,optional } t:in } I { }",
+				"um key=json fs=0 fa=0 T { In { A int t:a,optional } t:in } I { }",
+				"um key=json fs=0 fa=0 T { In { A int t:a,optional } t:in X int t:x,range=[1:5] } I { x n:5 }",
+				"um key=form fs=0 fa=0 T { In { A int t:a,optional } t:in X int t:x,range=[1:5] } I { x n:9 in { a n:1 } }")
+		}
+		for k := verifh.Scale(3, 6); k > 0; k-- {
+			// one struct type under two tag keys, several documents each, in both orders
+			t := c08GenType(r, 1, false)
+			var tb strings.Builder
+			t.tokens(&tb)
+			first := r.PickS("form", "json")
+			for _, key := range []string{first, map[string]string{"form": "json", "json": "form"}[first], first} {
+				for j := r.Range(1, 3); j > 0; j-- {
+					var ib strings.Builder
+					c08GenInput(r, t, &ib, false, false, r.Pick(0, 50, 90, 100))
+					ops = append(ops, "um key="+key+" fs=0 fa=0 T"+tb.String()+" I "+strings.TrimSpace(ib.String()))
+				}
 			}
 		}
 		if i == 0 {
